@@ -157,3 +157,5 @@ func cmdRun(args []string) {
 	}
 	_ = time.Now
 }
+
+func loadProgram(ov map[string][]byte) (*gose.Program, error) { return gose.Load(repoDir, ov) }
